@@ -42,6 +42,11 @@ Proof.
   - exact (redirect_host_ipv6_no_port a).
 Qed.
 
+(** ... and as one statement: for EVERY well-formed Host header ([wf_host]:
+    host, host:port, [v6], [v6]:port) the redirect names [host_without_port]. *)
+Theorem c16_redirect_same_host : forall h, wf_host h = true -> redirect_host h = host_without_port h.
+Proof. exact redirect_host_wf. Qed.
+
 (** The tree as given (before /repo df49a20) lost the brackets of an IPv6
     literal: Host "[::1]:8080" was redirected to "https://::1/...". *)
 Theorem c16_refuted_pinned_ipv6_redirect :
@@ -183,6 +188,14 @@ Example c16_example_case :
   cert_for st (bs "localhost") = CRefuse /\ cert_for st (bs "a.example.com.") = CRefuse.
 Proof. vm_compute. repeat split; reflexivity. Qed.
 
+Example c16_example_hosts :
+  map wf_host [bs "a.example.com"; bs "a.example.com:8080"; bs "[::1]"; bs "[2001:db8::1]:443";
+               bs "::1"; bs "a.example.com:"; bs "[abc]:80"; bs ":80"; bs "a:b:c"] =
+    [true; true; true; true; false; true; false; false; false] /\
+  map host_without_port [bs "a.example.com:8080"; bs "[2001:db8::1]:443"; bs "[::1]"] =
+    [bs "a.example.com"; bs "[2001:db8::1]"; bs "[::1]"].
+Proof. vm_compute. split; reflexivity. Qed.
+
 Example c16_example_wildcard :
   exec fixed init_state (ex_dep "w" [bs "a.example.com"; bs "*.example.com"] [] true true CertNone)
     = (Err EWildcardACME, init_state) /\
@@ -209,6 +222,7 @@ Qed.
 
 Print Assumptions c16_redirect.
 Print Assumptions c16_redirect_host.
+Print Assumptions c16_redirect_same_host.
 Print Assumptions c16_refuted_pinned_ipv6_redirect.
 Print Assumptions c16_refuse.
 Print Assumptions c16_cert_only_bound.
